@@ -30,7 +30,7 @@ PROPERTY = "C01"
 LEAN_MODULES = ["SigpyVerif.Props.C01", "SigpyVerif.Lemmas.C01Block", "SigpyVerif.Props.C09",
                 "SigpyVerif.Lemmas.C01Index", "SigpyVerif.Props.C01Leaves", "SigpyVerif.Props.C01MatMul",
                 "SigpyVerif.Props.C01LeavesGen", "SigpyVerif.Props.C01Gen", "SigpyVerif.Props.C01Ext",
-                "SigpyVerif.Props.C01Fft"]
+                "SigpyVerif.Props.C01Fft", "SigpyVerif.Props.C01Wave"]
 THEOREMS = ["SigpyVerif.C01." + t for t in [
     # algebra of entry lists (Props/C01.lean)
     "applyF_append", "applyF_compE", "applyF_conjE", "coo_adjoint", "isAdj_of_entries", "isAdj_comp", "isAdj_comp3",
@@ -84,12 +84,16 @@ THEOREMS = ["SigpyVerif.C01." + t for t in [
     # Gen/LinopAdjoint.lean); FiniteDifference's generated tree has proved leaves only
     "multiplySumTest_spec", "matmulSumTest_spec", "multiplySumAxes_gen", "matmulSumAxes_gen", "oshOf_sum", "adjLeaf_multiply_gen", "adjLeaf_matmul_gen",
     "adjLeaf_rmatmul_gen", "adjLeaf_eq_gen", "adjLeaf_eq_gen_simple", "adj_eq_gen", "allLeaves_imp", "adj_denote_gen",
+    "transposeSem_norm", "sumSem_norm", "leafSem0_eq_prim", "applyGen_covers",
     "allLeaves_vstackList", "finiteDifference_leaves", "finiteDifference_adjoint",
     # leaf classes imported from C08 through the generated pairing table (Props/C01Ext.lean)
     "matOf_congr", "matOf_isAdj", "sum_delta_right", "conv1Params_spec", "shapeProd_single", "conv_data_entries",
     "conv_filt_entries", "conv_leaf_proved", "adjOpaque_table", "conv_leaf_adjoint", "conv_tree_adjoint",
     # FFT / IFFT leaves over C imported from C05's N-d table (Props/C01Fft.lean)
     "idx_ofFn", "fft_entry_conj", "fftE_inv_eq", "ifftE_perm_adj", "fft_leaf_proved", "fft_tree_adjoint",
+    # Wavelet / InverseWavelet leaves, 1-D, real scalars, imported from C10 (Props/C01Wave.lean; partial)
+    "unitL_length", "dot_zeros", "zeros_dot", "dot_unit_right", "dot_unit_left", "wave_entry_transpose",
+    "iwaveE_perm_adj", "shapeProd_natCast", "wave_leaf_proved_partial",
 ]] + ["SigpyVerif.C09." + t for t in ["resize_transpose", "roll_inverse", "up_down_index", "b2a1_transpose_a2b1"]]
 
 MAXEL = 24  # largest input / output size of a generated operator
@@ -97,9 +101,9 @@ MAXEL = 24  # largest input / output size of a generated operator
 
 def translate(ctx):
     # LinopAdjoint: every `_adjoint_linop`, the sum-axes helpers and the FiniteDifference factory (gen_c01.py);
-    # Conv*: imported (through Props/C08) by Props/C01Ext; Fourier: imported (through Props/C05Nd) by Props/C01Fft
+    # Conv*: imported (through Props/C08) by Props/C01Ext; Fourier / C10Formulas: imported (through Props/C05Nd, Props/C10) by Props/C01Fft, C01Wave
     G.regenerate(ctx, ["Block", "UtilFormulas", "LinopFormulas", "Interp", "LinopAdjoint",
-                       "ConvFormulas", "ConvWiring", "ConvLinops", "ConvParams", "Fourier"])
+                       "ConvFormulas", "ConvWiring", "ConvLinops", "ConvParams", "Fourier", "C10Formulas"])
 
 
 # ---- protocol helpers -----------------------------------------------------------------------
@@ -886,6 +890,10 @@ def correspond(ctx, which=("M", "MH")):
         "kernel weights) - and, imported from C08 through the generated pairing table, for ConvolveData / "
         "ConvolveDataAdjoint / ConvolveFilter / ConvolveFilterAdjoint in the 1-D single-channel case "
         "(conv_leaf_proved); FiniteDifference: the tree generated from the factory has proved leaves only",
+        "the `_apply` bodies of Identity, Reshape, Transpose, Resize, Flip, Circshift, Downsample, Upsample, Sum, Slice, "
+        "ArrayToBlocks, Interpolate are translated (applyGen) and proved to be what the model denotes (leafSem0_eq_prim); "
+        "Tile, Embed, BlocksToArray, Gridding, Multiply, MatMul, RightMatMul `_apply` remain hand transcriptions tied by "
+        "the exact matrix correspondence; the numpy / util primitive semantics are the model's contracts",
         "which class with which arguments every _adjoint_linop returns is translated from linop.py on every run "
         "(Gen.LinopAdjoint) and proved equal to the model's adj (adjLeaf_eq_gen, adj_eq_gen); the per-class map "
         "'attribute -> constructor parameter' is read from __init__ (super().__init__ / self.x = x), except the "
@@ -894,7 +902,9 @@ def correspond(ctx, which=("M", "MH")):
         "C05's executable table denotes; FFT.H = IFFT(same axes, center) from the generated table + C05 "
         "ifft_table_eq_conjTranspose (fft_leaf_proved); the table itself is tied to fourier.py by C05's check",
         "oracle-only leaves (dot test, no C01 theorem; their pairing class/arguments are pinned by adjOpaque_table): "
-        "Wavelet / InverseWavelet (C10 proves iwt1_is_adjoint about its own list-level model; no entry lists), "
+        "Wavelet / InverseWavelet beyond the 1-D real case (1-D, one axis, any level / even filter pair, scalars with "
+        "trivial conjugation: wave_leaf_proved_partial from C10 iwt1_is_adjoint; N-d / multi-axis and complex scalars "
+        "are oracle-only), "
         "multi-channel / N-D / batched convolutions (C08 has the theorems; only the 1-D single-channel entry lists "
         "are bridged), NUFFT / NUFFTAdjoint and Kaiser-Bessel Interpolate / Gridding (irrational weights), "
         "ToDevice / AllReduce (no arithmetic), the MRI factories (C16)",
